@@ -474,7 +474,16 @@ def build(spec, run, plain=None, reuse_sm=None):
     elif s["kind"] == "simple":
         sm = get_simple_sprout(s["far_enough"], level_limit=s["level_limit"])
     else:
-        gen = {"best": G.BestPerDeme, "nbc": lambda: G.NBC_Generator(s["gen_dist_factor"], s["trunc_factor"]), "nbc_local": lambda: G.NBCGeneratorWithLocalMethod(s["gen_dist_factor"], s["trunc_factor"])}[s["generator"]]()
+        class EveryThird(G.SproutCandidatesGenerator):
+            """a user-defined candidate generator (monitor-only runs: the model does not know it): every third
+            individual of each active non-leaf deme's current population, in population order (NOT ranked)"""
+
+            def __call__(self, tree):
+                from pyhms.sprout.sprout_candidates import DemeCandidates, DemeFeatures
+
+                return {deme: DemeCandidates(individuals=list(deme.current_population[::3]), features=DemeFeatures()) for level in tree.levels[:-1] for deme in level if deme.is_active}
+
+        gen = {"best": G.BestPerDeme, "nbc": lambda: G.NBC_Generator(s["gen_dist_factor"], s["trunc_factor"]), "nbc_local": lambda: G.NBCGeneratorWithLocalMethod(s["gen_dist_factor"], s["trunc_factor"]), "user": EveryThird}[s["generator"]]()
         dfs = []
         for f in s["deme_filters"]:
             if f == "nbcfar" and s["generator"] != "best":
